@@ -342,6 +342,43 @@ def replay_depth(exe, failures):
     return {"status": "not_reproduced", "summary": "sibling evaluations did not consume the depth budget natively", "attempts": [rec]}
 
 
+SERDE_SOURCES = {
+    ("CelValue", "Err"): ["1 / 0", "[1, 1 / 0]"], ("CelValue", "Int"): ["1 + 2"], ("CelValue", "UInt"): ["1u + 2u"], ("CelValue", "Float"): ["1.5 + 1.0"],
+    ("CelValue", "Bool"): ["!false"], ("CelValue", "String"): ["'a' + 'b'"], ("CelValue", "Bytes"): ["b'ab'"], ("CelValue", "List"): ["[1, 2] + [3]"],
+    ("CelValue", "Map"): ["{'a': 1}"], ("CelValue", "Null"): ["null"], ("CelValue", "Ident"): ["x + 1"], ("CelValue", "Type"): ["type(1)"],
+    ("CelValue", "TimeStamp"): ["timestamp('2024-01-01T00:00:00Z')"], ("CelValue", "Duration"): ["duration('1s')"], ("CelValue", "ByteCode"): ["[1, 2].map(y, y + x)"],
+    ("CelError", None): ["1 / 0", "[1][5]", "1 < 'a'", "size(1, 2)", "{'a': 1}.b", "int('x')"],
+    ("ByteCode", None): ["x + 1 - 2 * 3 / 4 % 5", "x < 1 || x <= 2 && x == 3 || x != 4 || x >= 5 || x > 6", "x in [1, 2]", "!(x == 1) ? -x : [x, 2][0]", "{'a': x}.a", "[1, 2].map(y, y + x)", "f'{x}a'", "size([x])"],
+    ("JmpWhen", None): ["x == 1 || x == 2", "x == 1 && x == 2", "x == 1 ? 2 : 3"],
+}
+
+
+def replay_serde(exe, failures):
+    tried = []
+    for f in failures:
+        sc = f.get("scenario")
+        if not sc or sc.get("kind") != "serde":
+            continue
+        srcs = SERDE_SOURCES.get((sc["enum"], sc["variant"])) or SERDE_SOURCES.get((sc["enum"], None))
+        if not srcs:
+            tried.append({"label": f["label"], "skipped": f"no source known that puts a {sc['enum']}::{sc['variant']} into a compiled program"})
+            continue
+        out, why = run(exe, "serde", [{"sources": srcs}])
+        if out is None:
+            tried.append({"label": f["label"], "skipped": why})
+            continue
+        rts = out[0].get("round_trips", [])
+        rec = {"label": f["label"], "round_trips": rts}
+        tried.append(rec)
+        bad = [r for r in rts if r.get("bincode", {}).get("status") not in ("ok", None) or r.get("json", {}).get("status") not in ("ok", None)]
+        if bad:
+            rec["reproduced"] = True
+            b = bad[0]
+            return {"status": "reproduced", "summary": f"program `{b['source']}`: bincode {b.get('bincode')}, json {b.get('json')}", "attempts": tried}
+    ran = any("round_trips" in t for t in tried)
+    return {"status": "not_reproduced" if ran else "unavailable", "summary": "round trips agree natively" if ran else "no scenario could be made concrete", "attempts": tried}
+
+
 def main():
     rec_path, out_path, repo, kani_dir, cache = sys.argv[1:6]
     rec = json.load(open(rec_path))
@@ -358,6 +395,8 @@ def main():
             r = r2 if r2["status"] == "reproduced" else r
     elif any((f.get("scenario") or {}).get("kind") == "vm" for f in fails):
         r = replay_vm(exe, fails)
+    elif any((f.get("scenario") or {}).get("kind") == "serde" for f in fails):
+        r = replay_serde(exe, fails)
     elif any((f.get("scenario") or {}).get("kind") == "resolve" for f in fails):
         r = replay_resolve(exe, fails)
     elif any((f.get("scenario") or {}).get("kind") == "value" for f in fails):
